@@ -341,7 +341,7 @@ func run(in Input, gen string) (emit.Case, bool) {
 // ---- generators --------------------------------------------------------------------------------
 
 var expiries = []int64{10, 20, 30, 40}
-var mins = []int64{0, 5, 10, 11, 20, 21, 30, 31, 40, 41, 50}
+var mins = []int64{0, 5, 10, 11, 20, 21, 30, 31, 40, 41, 50, -3, -9223372036854775807}
 
 func genHeap(r *rand.Rand, kind int) Input {
 	in := Input{Kind: kind, NIDs: 6 + r.Intn(7)}
@@ -393,6 +393,10 @@ func genEMap(r *rand.Rand) Input {
 	times := []int64{0, 10, 20, 30, 40}
 	if r.Intn(3) == 0 {
 		times = []int64{0, 3, 7, 10, 15, 20, 25, 30, 40}
+	}
+	if r.Intn(5) == 0 {
+		// every expiry other than 0 is tracked, negative ones included
+		times = []int64{0, -5, -1, 1, 10, -9223372036854775808, 20}
 	}
 	randIDs := func(k int) []int {
 		xs := make([]int, k)
